@@ -765,6 +765,7 @@ def gen_steps_shrink(rng, sid, big, t, k):
          "seed": rng.randint(1, 10 ** 6)}
     c["gamma"] = rng.choice([0.25, 1.0]) if c["kernel"] == "rbf" else 0.0
     c["x"], c["y"] = gen_data(rng, n, d, k, "blobs" if style == "zero" else rng.choice(["int", "dyadic"]))
+    if rng.random() < 0.35: c["rand"] |= 4          # performBiasUpdate events of the real BiasSolver / BiasSolverSimplex
     return c
 
 def gen_solve(rng, sid, big, t, k):
@@ -837,13 +838,14 @@ def monitor_steps(c, out, nm, K):
     t, k, n, C = c["type"], c["k"], c["n"], c["C"]
     P = cardP(t, k); bad = []; steps = []
     simplex = t in SIMPLEX
-    allvars = False; last = None; nsmo = 0; scale = 1.0
+    allvars = False; last = None; nsmo = 0; scale = 1.0; bias = None
     for l in out:
         tk = l.split()
         h = tk[0]
         if h in ("EXC", "STDEXC"): return [("exception", "solver threw: " + l)], steps
         if h == "BAD": return [("tables", "variable/example tables inconsistent: " + " ".join(tk[2:]))], steps
         if h == "EV": allvars = (tk[2] == "unshrink"); continue
+        if h == "BV": bias = [fh(x) for x in tk[2:]]; continue
         if h in ("SS", "SB"):
             Cc = fh(tk[2]); Pp = int(tk[3]); ev, pv, ew, pw = int(tk[4]), int(tk[5]), int(tk[6]), int(tk[7])
             nums = tk[10:15]; rest = tk[15:]
@@ -874,6 +876,15 @@ def monitor_steps(c, out, nm, K):
                     if not (0.0 <= s["vs"][i] <= C): bad.append(("varsum", "varsum(%d)=%r outside [0,C]" % (i, s["vs"][i])))
                     if not abs(sm - s["vs"][i]) <= 1e-14 * (1 + C) + 8 * EPSM * C * (nsmo + 4): bad.append(("varsum", "varsum(%d)=%r but sum_p alpha = %r" % (i, s["vs"][i], sm)))
             if bad: return bad[:1], steps
+            # bias solver book-keeping: linear(i,p) = initial linear term - sum_c nu(y_i,p)(c) * offset(c)  (no random addDeltaLinear in that run)
+            if bias is not None and not (c["rand"] & 2):
+                for i in range(n):
+                    for q in range(P):
+                        l0 = (k - 1.0) if (t == "RI" and q == c["y"][i]) else 1.0
+                        want = l0 - math.fsum(nm["nu"][c["y"][i] * P + q][cc] * bias[cc] for cc in range(k))
+                        if not abs(s["lin"][i][q] - want) <= 1e-12 * (1 + abs(want)):
+                            bad.append(("bias-bookkeeping", "linear(%d,%d)=%r but 1 - <nu(y,p), offsets %s> = %r" % (i, q, s["lin"][i][q], bias, want)))
+                            return bad[:1], steps
             # gradient = linear - Q alpha  (active variables; all variables right after unshrink)
             nzs = [(j, q, s["a"][j][q]) for j in range(n) for q in range(P) if s["a"][j][q] != 0.0]
             for i in range(n):
@@ -1006,6 +1017,8 @@ def split_state_trace(out):
             if pend is not None: pairs.append((pend, l)); pend = None
         elif h == "SV " and pend == "SV":
             t = l.split(); op, ms = pairs[-1]; pairs[-1] = (op, ms + " X %s %s" % (t[2], t[3])); pend = None
+        elif h == "BV " and pairs and " biasupd " in pairs[-1][0][:40]:
+            op, ms = pairs[-1]; pairs[-1] = (op, ms + " B " + " ".join(l.split()[2:]))
         elif h in ("SE ", "KK "):
             a, b = l.split(" > "); inp.append(a); pairs.append((a, "V " + b))
             if h == "SE " and lastms is not None: sels.append((lastms, l, None))
@@ -1314,6 +1327,7 @@ def main():
             if rc3 != 0 or len(sout) != len(st_pairs): raise RuntimeError("model driver failed on the state lines (%d outputs for %d operations): %s" % (len(sout), len(st_pairs), serr[-500:]))
             for (c, opl, ms), got in zip(st_pairs, sout):
                 kind = opl.split()[2] if opl.startswith("MO ") else {"MI ": "init", "SE ": "select", "KK ": "checkKKT", "MV ": "solve"}.get(opl[:3], "init")
+                if kind == "biasupd": kind = "performBiasUpdate"
                 st_ops[kind] = st_ops.get(kind, 0) + 1
                 d = ms_diff(ms, got)
                 if d: st_dis.append((c, opl, d))
